@@ -144,6 +144,7 @@ class StrayProfile:
             fk = [f for f in proto.FAULT_KINDS if f not in ("cfg_torn", "cfg_garbage", "cfg_missing", "cfg_eio", "cfg_burst",
                                                              "cfg_same", "cfg_timeout", "extreme_ids") and rnd.random() < 0.5]
             o["faults"] = fk + ["cli_reannounce_live", "cli_disconnect"]
+        o.setdefault("p_wrap", float(os.environ.get("VERIF_PWRAP", "0.03")))
         o["steps"] = rnd.choice([20, 40, 80, 150, 300])
         o["clients"] = rnd.choice([4, 15, 40, 60])
         o["conc"] = rnd.choice([1, 2, 3])
